@@ -136,6 +136,12 @@ def explain_case(c, text, err):
     m = re.search(r"line (\d+)\)", err)
     lines = text.splitlines()
     bad = lines[int(m.group(1)) - 1] if m and 0 < int(m.group(1)) <= len(lines) else ""
+    # an arm that always matches (a name or `_`) stands before another arm: CPython refuses the match statement
+    if "makes remaining patterns unreachable" in err and re.search(r"^\s*case \w+:\s*$", bad):
+        return "KF-C02-13"
+    # a tuple of conditional expressions as a statement of its own (value unused): the elements are printed in statement form
+    if "invalid syntax" in err and re.search(r"^\s*\(if .*:\s*$", bad):
+        return "KF-C02-14"
     if c["origin"].startswith("mutant"):       # shapes that only token-level mutants produce
         if re.search(r"^\s*(\+|-|~|not )\s*(match|if|for|while|try|class|def)\b", bad):
             return "KF-C02-8"
